@@ -361,7 +361,8 @@ impl Response {
                         /* capacity for a single line */
                         "data: ".len() + chunk.len() + "\n\n".len()
                     );
-                    for line in chunk.split('\n') {
+                    /* CRLF, LF and CR are all line breaks of an event stream */
+                    for line in chunk.split("\r\n").flat_map(|l| l.split(['\r', '\n'])) {
                         message.extend_from_slice(b"data: ");
                         message.extend_from_slice(line.as_bytes());
                         message.push(b'\n');
